@@ -61,6 +61,9 @@ CHECKS["C06"] = dict(text="facts and goals on plain Interval/Impulse predicates,
 CHECKS["C18"] = dict(text="three monitors: (1) thousands of prefixes / delimiter edits / pathological literals / random byte and token strings given to riddle_parser and solver::read under ASan+UBSan with a 10 s / memory bound per input (thorough: plus libFuzzer on both entry points); (2) every solver-level workload family and the shipped examples through read()+solve() under ASan+UBSan with assertions on and on the Release build; (3) every network-level workload family under ASan+UBSan with assertions on and LeakSanitizer; any signal, abort, std::terminate, sanitizer report, failed assertion, reader non-termination or network-layer leak is a violation",
                      note="a clean sanitizer run is not memory safety; solver search that exceeds the budget is inconclusive; UBSan vptr is off (deliberate construction idiom) and signed overflow is logged only; leaks are judged for the network layer only",
                      technique="runtime monitoring: compiler sanitizers + assertion builds + watchdogs over hostile reader inputs and the other properties' workloads")
+CHECKS["C19"] = dict(text="solved timeline problems (state variables, resources, interval/impulse predicates, agents; integer and fractional times) executed tick by tick with units_per_tick in {1/2, 1, 3/2, 2, 5} by a seeded scripted client that delays random starts/ends and reports failures; the executor_listener event log is checked by a per-atom state machine (time advance, exactly-once start/end in order, not before the planned time, not against the client's last answer, frozen values never move) and the plan after every tick by the C04/C05/C06 checkers, on Debug and Release builds",
+                     note="liveness is restated as bounded progress (by horizon + a few ticks); execution_exception is a reported outcome that ends a history; histories that exceed 60 s are inconclusive",
+                     technique="runtime monitoring: offline checker over the recorded executor event log with injected delays and failures")
 NA_REASON = "check not built yet in this round (planned; see DESIGN.md)"
 
 hooks_commits = subprocess.run(["git", "-C", "/repo", "log", "--format=%h", "--grep=ORATIO_VERIF"], stdout=subprocess.PIPE, text=True).stdout.split()
